@@ -34,7 +34,9 @@ var KeyVarNames = []string{"", "k", "i"}
 type Layout struct {
 	// 0 canonical, 1 wide spaces, 2 newlines inside brackets, 3 inline comments, 4 a space between all tokens,
 	// 5 object items on their own lines / trailing commas in tuples, calls and for-less objects,
-	// 6 line comments (# and //) wherever a newline is insignificant, 7 alternative number spellings
+	// 6 line comments (# and //) wherever a newline is insignificant, 7 alternative number spellings,
+	// 8 a newline after every opening bracket and after every item separator (the first item of an
+	// object constructor stays on the brace line)
 	Mode int
 	Rng  *rand.Rand // optional: random choices (redundant parentheses etc.)
 }
@@ -116,6 +118,10 @@ func (r *renderer) osp() {
 		}
 	case 3:
 		r.sb.WriteString("/* c */")
+	case 8:
+		if r.nl > 0 {
+			r.sb.WriteString("\n")
+		}
 	}
 }
 
@@ -129,6 +135,16 @@ func (r *renderer) t(s string) {
 		r.sb.WriteString(" ")
 	}
 	r.sb.WriteString(s)
+}
+
+// comma writes an item separator of a tuple, object constructor or call; in mode 8 a newline
+// follows it (legal in all three: newlines are insignificant inside brackets and parentheses,
+// and a newline may follow the comma between object items)
+func (r *renderer) comma() {
+	r.t(",")
+	if r.l.Mode == 8 {
+		r.w("\n")
+	}
 }
 
 func (r *renderer) open(s string)  { r.t(s); r.nl++ }
@@ -211,11 +227,15 @@ func (r *renderer) seqOpen(intro string, strip bool) {
 		r.w("~")
 	}
 	r.nl++
-	r.osp()
+	if r.l.Mode != 8 { // mode 8 keeps the first token of a template sequence on the introducer's line
+		r.osp()
+	}
 }
 
 func (r *renderer) seqClose(strip bool) {
-	r.osp()
+	if r.l.Mode != 8 {
+		r.osp()
+	}
 	r.nl--
 	if strip {
 		r.t("~}")
@@ -347,7 +367,7 @@ func (r *renderer) expr(n *Node) {
 		r.open("[")
 		for i, s := range n.Sub {
 			if i > 0 {
-				r.t(",")
+				r.comma()
 				r.sp()
 			} else {
 				r.osp()
@@ -373,7 +393,7 @@ func (r *renderer) expr(n *Node) {
 				}
 				r.w("\n")
 			} else if i > 0 {
-				r.t(",")
+				r.comma()
 			}
 			r.sp()
 			r.expr(n.Sub[i])
@@ -476,7 +496,7 @@ func (r *renderer) expr(n *Node) {
 		r.open("(")
 		for i, s := range n.Sub {
 			if i > 0 {
-				r.t(",")
+				r.comma()
 				r.sp()
 			} else {
 				r.osp()
@@ -540,7 +560,7 @@ func containsHeredoc(n *Node) bool {
 // Render produces native-syntax source text for the expression.
 func Render(n *Node, l Layout) string {
 	r := &renderer{l: l}
-	if l.Mode == 2 || l.Mode == 6 {
+	if l.Mode == 2 || l.Mode == 6 || l.Mode == 8 {
 		// a stand-alone expression ignores newlines everywhere; as an
 		// attribute value it needs brackets, so wrap in parentheses
 		r.open("(")
